@@ -23,6 +23,18 @@ PROPERTY_RULES = {
     "C18": ["r_a15", "r_a2", "r_a12"],
 }
 
+# build configurations analysed in the quick tier (the thorough tier analyses K1..K6 and diffs the verdict tables):
+# K1 default features / debug profile and K5 the same sources without debug assertions and overflow checks, so that a fault
+# that hides behind a debug-only check is seen on every change; the properties about feature sets and atomics also take the
+# no_std (K2) and portable-atomic (K4) builds.
+QUICK_DEFAULT = ["K1", "K5"]
+QUICK_CONFIGS = {
+    "C16": ["K1", "K2", "K4", "K5"],
+    "C05": ["K1", "K4", "K5"],
+    "C06": ["K1", "K4", "K5"],
+    "C03": ["K1", "K4", "K5"],
+}
+
 LEVEL = {"C14": "proof"}
 
 CLAUSES = {
